@@ -44,6 +44,9 @@ type SRHistory struct {
 	TS0    uint32    `json:"ts0"`
 	NTP0   int64     `json:"ntp0"`
 	Events []SREvent `json:"events"`
+	// Unreliable: the receiver is configured as for UDP / multicast (UnrealiableTransport); the
+	// sender-report path must not depend on it
+	Unreliable bool `json:"unreliable,omitempty"`
 }
 
 var slackNotes int
@@ -68,10 +71,11 @@ func srRun(c *corr.Ctx, h *SRHistory, name string) {
 	snd.Initialize()
 	defer snd.Close()
 	rcv := &rtpreceiver.Receiver{
-		ClockRate:       h.Rate,
-		Period:          time.Hour,
-		TimeNow:         func() time.Time { return time.Unix(0, now.Load()) },
-		WritePacketRTCP: func(rtcp.Packet) {},
+		ClockRate:            h.Rate,
+		Period:               time.Hour,
+		UnrealiableTransport: h.Unreliable,
+		TimeNow:              func() time.Time { return time.Unix(0, now.Load()) },
+		WritePacketRTCP:      func(rtcp.Packet) {},
 	}
 	if err := rcv.Initialize(); err != nil {
 		panic(err)
@@ -358,7 +362,8 @@ func roundDivInt(k, rate int64) int64 {
 
 func genSRHistory(c *corr.Ctx) *SRHistory {
 	r := c.Rng
-	h := &SRHistory{Kind: "sr", Rate: genRate(c), TS0: r.Uint32()}
+	h := &SRHistory{Kind: "sr", Rate: genRate(c), TS0: r.Uint32(), Unreliable: r.IntN(2) == 0}
+	c.Dist(fmt.Sprintf("sr:unreliable=%v", h.Unreliable))
 	switch r.IntN(4) {
 	case 0:
 		h.TS0 = uint32(1<<32 - 1 - r.IntN(100000))
@@ -537,4 +542,33 @@ func srBoundary(c *corr.Ctx) {
 		}
 	}
 	c.Dist("sr:boundary-sweep")
+	// long runs: a report every `period` ticks from shortly before the 32-bit wrap of the RTP timestamp
+	// to well beyond it, delivered at once, the packet at the report position and its neighbours
+	// queried after every delivery; both receiver configurations (added after seeded change C15-r6-2:
+	// a report filter that compared RTP times without wrap-around froze the reference at the wrap)
+	m := 0
+	for _, rate := range []int{8000, 48000, 90000} {
+		for _, period := range []int64{0x10000000, 0x30000000, 0x7fffffff} {
+			for _, unrel := range []bool{false, true} {
+				h := &SRHistory{Kind: "sr", Rate: rate, TS0: 0xE0000000, NTP0: 1500000000000000000, Unreliable: unrel}
+				sys := int64(1600000000) * 1000000000
+				for i := int64(0); i < 12; i++ {
+					K := i * period
+					adv := roundDivInt(period, int64(rate))
+					sys += adv
+					h.Events = append(h.Events, SREvent{Op: "pkt", TS: h.TS0 + uint32(K), NTP: h.NTP0 + roundDivInt(K, int64(rate)), Eq: true, Len: 100, Now: sys, K: K})
+					h.Events = append(h.Events, SREvent{Op: "report", Now: sys})
+					h.Events = append(h.Events, SREvent{Op: "deliver", Report: int(i), Now: sys})
+					for _, dk := range []int64{-1000, 0, 1000} {
+						if K+dk >= 0 {
+							h.Events = append(h.Events, SREvent{Op: "query", TS: h.TS0 + uint32(K+dk), K: K + dk})
+						}
+					}
+				}
+				srRun(c, h, fmt.Sprintf("sr-longrun-%d", m))
+				m++
+			}
+		}
+	}
+	c.Dist("sr:longrun-across-wrap")
 }
